@@ -36,13 +36,25 @@ def k4_importer_wakeup(res, tier):
     res.assumptions = ['the importer is in the state op_import leaves it in: Pending, its waiter runnable, not on the run queue (C17.K2 op_import)',
                        'the child uses no channel: a wake-up through a shared channel is a different path']
     e.allow_havoc(r'^(laythe_core::)?(object::)?(\w+::)*ChannelWaiter::set_runnable$')
+    res.bounds = dict(res.bounds)
+
+    # the state the importer is left in: what op_import really does to it before it creates the module fiber
+    import re as _re
+    src = P.items.files['laythe_vm/src/vm/ops.rs']
+    mm = _re.search(r'ImportResult::Compiled\(fun\) => \{.*?self\.fiber\.(sleep|block)\(\);.*?create_fiber', src, _re.S)
+    if not mm:
+        res.inconclusive('op_import: the call that parks the importer was not found')
+        return
+    park = P.lookup('fiber::Fiber::' + mm.group(1))
+    res.bounds['importer parked by'] = 'Fiber::' + mm.group(1) + ' (read from op_import, executed from MIR)'
 
     def path(e):
         e.path_state.setdefault('events', [])
         importer = e.fresh('fiber::Fiber', 'importer')
-        importer.f[ix['state']] = Cell(EnumV('fiber::FiberState', st_def.vindex['Pending'], None, None, st_def))
+        importer.f[ix['state']] = Cell(EnumV('fiber::FiberState', st_def.vindex['Running'], None, None, st_def))
         iw = AbsGc(z3.BitVec('importer_waiter', 64), 'laythe_core::object::ChannelWaiter')
         importer.f[ix['waiter']] = Cell(iw)
+        e.call(park, [Ref(Cell(importer))])
         ig = AbsGc(z3.BitVec('importer_fiber', 64), 'fiber::Fiber')
         e.memo[('gcdata', ig.id.sexpr(), norm_ty('fiber::Fiber'))] = c = Cell(importer)
         e.memo[('cellobj', id(c))] = ig
@@ -51,6 +63,10 @@ def k4_importer_wakeup(res, tier):
         is_module = e.fork_bool(me == module_fiber)
         child = e.fresh('fiber::Fiber', 'child')
         child.f[ix['state']] = Cell(EnumV('fiber::FiberState', st_def.vindex['Running'], None, None, st_def))
+        if 'awaited' in ix:
+            # established by the constructors (C06.K2.fiber_new / fiber_split): Fiber::new with a parent marks the fiber as awaited,
+            # Fiber::split (launch) does not
+            child.f[ix['awaited']] = Cell(bool(is_module))
         oty = fib_sd.fields[ix['parent']][1]
         child.f[ix['parent']] = Cell(e.mk_option(e, norm_ty(oty), ig))
         cw = AbsGc(z3.BitVec('child_waiter', 64), 'laythe_core::object::ChannelWaiter')
